@@ -112,7 +112,7 @@ def r2(cx):
     cx.check(bool(wf.calls_to("TableWriter::write_compressed_block")), "the writer gives every meta/filter block a checksum trailer", "writer-no-trailer", wf.where())
     # direct File::read_at users in the sstable layer
     n = 0
-    for b in f.bodies.values():
+    for b in f.scan_bodies():
         if "/sstable/" not in b.file:
             continue
         for c in b.calls:
@@ -186,7 +186,7 @@ def r3(cx):
 def r4(cx):
     f = cx.f
     n = 0
-    for b in f.bodies.values():
+    for b in f.scan_bodies():
         if not any(x in b.file for x in ("snapshot.rs", "iter.rs", "compaction/", "sstable/", "levels/", "vlog.rs", "transaction.rs", "memtable/")):
             continue
         for c in b.calls:
